@@ -1054,44 +1054,65 @@ func (w *World) verifyFunction(fn *ssa.Function, c *Contract) (vc *FnVC, err err
 	// exit
 	exitReach, results, exitSt := f.mergeReturns()
 	if exitSt != nil {
-		postSt := exitSt
-		if !declaresAlloc(c) {
-			// a function that does not declare allocation may only speak about objects that existed at entry:
-			// allocated(x) in its postconditions refers to the entry allocation (sound to apply at callers whose
-			// allocation state is left unchanged by the call)
-			postSt = exitSt.clone()
-			postSt.h["A"] = vc.hget(entry, "A")
-		}
-		env := f.env(postSt, entry)
-		for i, rn := range c.Results {
-			if i < len(results) {
-				env.vars[rn] = results[i]
-			}
-		}
 		if len(c.Results) > 0 && len(c.Results) != len(results) {
 			return nil, fmt.Errorf("%s: contract names %d results, function has %d", vc.fnName, len(c.Results), len(results))
 		}
-		if len(c.Records) > 0 {
-			// `records G = E` defines the ghost at exit; the postconditions speak about the recorded value
-			postSt = postSt.clone()
-			env.cur = postSt
-			if len(f.rets) == 1 && f.rets[0].blk != nil {
-				// locals of the function may be named when there is a single return statement
-				env.pointBlock, env.pointIdx = f.rets[0].blk, len(f.rets[0].blk.Instrs)-1
+		// Postconditions are checked per return statement, on the state of that path, and the per-path implications
+		// are conjoined into one obligation: a heap joined from several paths (ite over arrays) under quantified
+		// postconditions of callees made goals hard and seed-dependent that are immediate on each path alone.
+		mkView := func(reach string, st0 *state, vals []*sym, blk *ssa.BasicBlock) postView {
+			pst := st0
+			if !declaresAlloc(c) {
+				// a function that does not declare allocation may only speak about objects that existed at entry:
+				// allocated(x) in its postconditions refers to the entry allocation (sound to apply at callers whose
+				// allocation state is left unchanged by the call)
+				pst = st0.clone()
+				pst.h["A"] = vc.hget(entry, "A")
 			}
-			f.applyRecords(c, env, postSt, exitReach)
+			e := f.env(pst, entry)
+			for i, rn := range c.Results {
+				if i < len(vals) {
+					e.vars[rn] = vals[i]
+				}
+			}
+			if len(c.Records) > 0 {
+				// `records G = E` defines the ghost at exit; the postconditions speak about the recorded value
+				pst = pst.clone()
+				e.cur = pst
+				if blk != nil {
+					// locals of the function may be named at a return statement
+					e.pointBlock, e.pointIdx = blk, len(blk.Instrs)-1
+				}
+				f.applyRecords(c, e, pst, reach)
+			}
+			return postView{reach, e}
+		}
+		var views []postView
+		if len(f.rets) > 1 {
+			for _, r := range f.rets {
+				views = append(views, mkView(r.reach, r.st, r.vals, r.blk))
+			}
+		} else {
+			var blk *ssa.BasicBlock
+			if len(f.rets) == 1 {
+				blk = f.rets[0].blk
+			}
+			views = append(views, mkView(exitReach, exitSt, results, blk))
 		}
 		for i, e := range c.Ensures {
 			label := e.Label
 			if label == "" {
 				label = fmt.Sprintf("e%d", i)
 			}
-			t := env.boolExpr(e.E)
+			var parts []string
+			for _, v := range views {
+				parts = append(parts, "(=> "+v.reach+" "+v.e.boolExpr(e.E)+")")
+			}
 			props := e.Props
 			if props == nil {
 				props = c.Props
 			}
-			vc.oblige("post", label, exitReach, t, fn.Pos(), e.Src, props)
+			vc.oblige("post", label, "true", and(parts...), fn.Pos(), e.Src, props)
 		}
 		vc.frameObligations(f, exitReach, entry, exitSt, c.Modifies, "frame", c.Props, true)
 		vc.globalInvariants(exitReach, entry, exitSt, fn.Pos(), c.Props)
@@ -2146,4 +2167,10 @@ func (vc *FnVC) globalInvariants(reach string, entry, exit *state, pos token.Pos
 		}
 		vc.oblige("post", "global_"+mangle(n)+"_stays_positive", reach, fmt.Sprintf("(> %s 0)", t1), pos, "global invariant: "+n+" > 0 at exit", props)
 	}
+}
+
+// postView: the state of one return statement in which the postconditions are evaluated.
+type postView struct {
+	reach string
+	e     *env
 }
